@@ -77,7 +77,8 @@ QVector<ObjectType> buildTypes()
             F_CUSTOM(T, "markedThread", "str", SETL({ if (o.marker() == QXmppMessage::NoMarker) { o.setMarker(QXmppMessage::Displayed); o.setMarkerId("m1"); } o.setMarkedThread(plain ? v.plain : v.str); }), GETL(return o.markedThread())),
             F_CUSTOM(T, "hints", "flags", SETL({ for (int b = 0; b < 4; b++) if ((v.idx + 1) & (1 << b)) o.addHint(QXmppMessage::Hint(1 << b)); }), GETL({ int m = 0; for (int b = 0; b < 4; b++) m |= o.hasHint(QXmppMessage::Hint(1 << b)) ? (1 << b) : 0; return QString::number(m); })),
             F_STR(T, "originId", setOriginId, originId),
-            F_CUSTOM(T, "stanzaIds", "str", SETL({ QXmppStanzaId a; a.id = plain ? v.plain : v.str; a.by = "room@muc"; QXmppStanzaId b; b.id = "second"; b.by = plain ? v.plain : v.str; o.setStanzaIds({ a, b }); }), GETL({ QStringList l; for (const auto &s : o.stanzaIds()) l << s.id + QChar('|') + s.by; return l.join(QChar(0x1f)); })),
+            F_CUSTOM(T, "stanzaIds", "list:struct", SETL(QVector<QXmppStanzaId> l; for (const auto &m : qxvfields::members(v, plain)) { QXmppStanzaId a; a.id = m; a.by = QStringLiteral("room@muc"); l << a; } o.setStanzaIds(l)),
+                     GETL(QStringList l; for (const auto &s : o.stanzaIds()) l << s.id + QChar('|') + s.by; return qxvfields::list2s(l))),
             F_STR(T, "attachId", setAttachId, attachId),
             F_STR(T, "mixUserJid", setMixUserJid, mixUserJid), F_STR(T, "mixUserNick", setMixUserNick, mixUserNick),
             F_ENUM(T, "encryptionMethod", QXmpp::EncryptionMethod, 2, 4, setEncryptionMethod, encryptionMethod),
@@ -86,7 +87,8 @@ QVector<ObjectType> buildTypes()
                      GETL(return qxvfields::b2s(o.isSpoiler()) + QChar('|') + o.spoilerHint())),
             F_STR(T, "outOfBandUrl", setOutOfBandUrl, outOfBandUrl),
             F_CUSTOM(T, "reply", "str", SETL({ QXmpp::Reply rp; rp.to = plain ? v.plain : v.str; rp.id = plain ? v.plain : v.str; o.setReply(rp); }), GETL({ auto rp = o.reply(); return rp ? rp->to + QChar('|') + rp->id : QStringLiteral("(none)"); })),
-            F_CUSTOM(T, "reaction", "str", SETL({ QXmppMessageReaction re; re.setMessageId(plain ? v.plain : v.str); re.setEmojis({ plain ? v.plain : v.str, QStringLiteral("second") }); o.setReaction(re); }), GETL({ auto re = o.reaction(); if (!re) return QStringLiteral("(none)"); auto em = QStringList(re->emojis().toList()); em.sort(); return re->messageId() + QChar('|') + em.join(QChar(0x1f)); })),
+            F_CUSTOM(T, "reaction", "str+set:str", SETL(QXmppMessageReaction re; re.setMessageId(plain ? v.plain : v.str); auto em = qxvfields::members(v, plain); em.removeDuplicates(); /* setEmojis(): "Duplicates are not allowed" */ re.setEmojis(qxvfields::fromStrings<QVector<QString>>(em)); o.setReaction(re)),
+                     GETL(auto re = o.reaction(); if (!re) return QStringLiteral("(none)"); return re->messageId() + QChar('|') + qxvfields::set2s(qxvfields::toStrings(re->emojis())))),
             F_CUSTOM(T, "mixInvitation", "str", SETL({ QXmppMixInvitation mi; mi.setInviterJid(plain ? v.plain : v.str); mi.setInviteeJid("b@x"); mi.setChannelJid("c@x"); mi.setToken(plain ? v.plain : v.str); o.setMixInvitation(mi); }), GETL({ auto mi = o.mixInvitation(); return mi ? mi->inviterJid() + '|' + mi->inviteeJid() + '|' + mi->channelJid() + '|' + mi->token() : QStringLiteral("(none)"); })),
             F_CUSTOM(T, "fallbackMarkers", "str", SETL({ QXmppFallback fb(plain ? v.plain : v.str, { QXmppFallback::Reference { QXmppFallback::Body, QXmppFallback::Range { uint32_t(v.idx), std::numeric_limits<uint32_t>::max() } } }); o.setFallbackMarkers({ fb }); }), GETL({ QStringList l; for (const auto &fb : o.fallbackMarkers()) { l << fb.forNamespace(); for (const auto &rf : fb.references()) l << QString::number(int(rf.element)) + '|' + (rf.range ? QString::number(rf.range->start) + '-' + QString::number(rf.range->end) : QStringLiteral("-")); } return l.join(QChar(0x1f)); })),
         });
@@ -101,7 +103,8 @@ QVector<ObjectType> buildTypes()
             F_STR(T, "statusText", setStatusText, statusText),
             // the password travels inside <x xmlns=muc/>, which is written for MUC-supporting presences only
             F_CUSTOM(T, "muc", "bool+str", SETL(o.setMucSupported(true); if (v.idx % 2) { o.setMucPassword(plain ? v.plain : v.str); }), GETL(return qxvfields::b2s(o.isMucSupported()) + QChar('|') + o.mucPassword())),
-            F_CUSTOM(T, "mucStatusCodes", "intlist", SETL({ o.setMucStatusCodes({ 100 + v.idx, 110, 999 }); }), GETL({ QStringList l; for (int c : o.mucStatusCodes()) l << QString::number(c); return l.join(','); })),
+            F_CUSTOM(T, "mucStatusCodes", "list:int", SETL(QList<int> l; const int a = 100 + v.idx % 200; switch (qxvfields::listShape(v)) { case 0: break; case 1: l << a; break; case 2: l << a << 110; break; case 3: l << a << a; break; case 4: l << a << 110 << a; break; case 5: l << 0 << a; break; case 6: l << 999 << 100; break; default: l << a << -1; } o.setMucStatusCodes(l)),
+                     GETL(QStringList l; for (int c : o.mucStatusCodes()) l << QString::number(c); return qxvfields::list2s(l))),
             F_CUSTOM(T, "mucItem", "str", SETL({ QXmppMucItem it; it.setJid(plain ? v.plain : v.str); it.setNick(plain ? v.plain : v.str); it.setReason(plain ? v.plain : v.str); it.setActor(plain ? v.plain : v.str);
                                             it.setAffiliation(QXmppMucItem::Affiliation(v.idx % 6)); it.setRole(QXmppMucItem::Role(v.idx % 5)); o.setMucItem(it); }), GETL({ auto it = o.mucItem(); return it.jid() + '|' + it.nick() + '|' + it.reason() + '|' + it.actor() + '|' + QString::number(it.affiliation()) + '|' + QString::number(it.role()); })),
             // XEP-0153: the hash belongs to VCardUpdateValidPhoto only
@@ -160,7 +163,7 @@ QVector<ObjectType> buildTypes()
             F_STR(T, "bareJid", setBareJid, bareJid), F_STR(T, "name", setName, name), F_STR(T, "subscriptionStatus", setSubscriptionStatus, subscriptionStatus),
             F_ENUM(T, "subscriptionType", QXmppRosterIq::Item::SubscriptionType, 0, 5, setSubscriptionType, subscriptionType),
             F_BOOL(T, "isApproved", setIsApproved, isApproved),
-            F_CUSTOM(T, "groups", "strset", SETL({ o.setGroups({ plain ? v.plain : v.str, QStringLiteral("second") }); }), GETL({ auto g = o.groups().values(); g.sort(); return g.join(QChar(0x1f)); })),
+            F_CUSTOM(T, "groups", "set:str", SETL(const auto m = qxvfields::members(v, plain); o.setGroups(QSet<QString>(m.begin(), m.end()))), GETL(return qxvfields::set2s(o.groups().values()))),
             F_BOOL(T, "isMixChannel", setIsMixChannel, isMixChannel),
             F_CUSTOM(T, "mixParticipantId", "str", SETL({ o.setIsMixChannel(true); o.setMixParticipantId(plain ? v.plain : v.str); }), GETL(return o.mixParticipantId())),
         }, [](T &o) { o.setBareJid("c@d"); });
@@ -169,7 +172,8 @@ QVector<ObjectType> buildTypes()
         using T = QXmppRosterIq;
         r << makeType<T>("QXmppRosterIq", {
             F_STR(T, "id", setId, id), F_ENUM(T, "type", QXmppIq::Type, 1, 3, setType, type), F_STR(T, "version", setVersion, version), F_BOOL(T, "mixAnnotate", setMixAnnotate, mixAnnotate),
-            F_CUSTOM(T, "items", "str", SETL({ QXmppRosterIq::Item a; a.setBareJid(plain ? v.plain : v.str); a.setName(plain ? v.plain : v.str); QXmppRosterIq::Item b; b.setBareJid("x@y"); o.setItems({ a, b }); }), GETL({ QStringList l; for (const auto &i : o.items()) l << i.bareJid() + '|' + i.name(); return l.join(QChar(0x1f)); })),
+            F_CUSTOM(T, "items", "list:struct", SETL(QList<QXmppRosterIq::Item> l; for (const auto &m : qxvfields::members(v, plain)) { QXmppRosterIq::Item a; a.setBareJid(m); a.setName(m); l << a; } o.setItems(l)),
+                     GETL(QStringList l; for (const auto &i : o.items()) l << i.bareJid() + '|' + i.name(); return qxvfields::list2s(l))),
         });
     }
     {
@@ -177,14 +181,14 @@ QVector<ObjectType> buildTypes()
         // which children are written depends on the query type (info: identities, features, form; items: items)
         r << makeType<T>("QXmppDiscoveryIq[info]", {
             F_STR(T, "id", setId, id), F_STR(T, "queryNode", setQueryNode, queryNode),
-            F_CUSTOM(T, "features", "strlist", SETL(o.setFeatures({ plain ? v.plain : v.str, QStringLiteral("urn:second") })), GETL(return qxvfields::sl2s(o.features()))),
-            F_CUSTOM(T, "identities", "str", SETL({ QXmppDiscoveryIq::Identity i; i.setCategory(plain ? v.plain : v.str); i.setType(plain ? v.plain : v.str); i.setName(plain ? v.plain : v.str); i.setLanguage("en"); o.setIdentities({ i }); }),
-                     GETL({ QStringList l; for (const auto &i : o.identities()) l << i.category() + '|' + i.type() + '|' + i.name() + '|' + i.language(); return l.join(QChar(0x1f)); })),
+            F_LIST(T, "features", setFeatures, features),
+            F_CUSTOM(T, "identities", "list:struct", SETL(QList<QXmppDiscoveryIq::Identity> l; for (const auto &m : qxvfields::members(v, plain)) { QXmppDiscoveryIq::Identity i; i.setCategory(m); i.setType(m); i.setName(m); i.setLanguage("en"); l << i; } o.setIdentities(l)),
+                     GETL(QStringList l; for (const auto &i : o.identities()) l << i.category() + '|' + i.type() + '|' + i.name() + '|' + i.language(); return qxvfields::list2s(l))),
         }, [](T &o) { o.setQueryType(QXmppDiscoveryIq::InfoQuery); });
         r << makeType<T>("QXmppDiscoveryIq[items]", {
             F_STR(T, "id", setId, id), F_STR(T, "queryNode", setQueryNode, queryNode),
-            F_CUSTOM(T, "items", "str", SETL({ QXmppDiscoveryIq::Item i; i.setJid(plain ? v.plain : v.str); i.setName(plain ? v.plain : v.str); i.setNode(plain ? v.plain : v.str); o.setItems({ i }); }),
-                     GETL({ QStringList l; for (const auto &i : o.items()) l << i.jid() + '|' + i.name() + '|' + i.node(); return l.join(QChar(0x1f)); })),
+            F_CUSTOM(T, "items", "list:struct", SETL(QList<QXmppDiscoveryIq::Item> l; for (const auto &m : qxvfields::members(v, plain)) { QXmppDiscoveryIq::Item i; i.setJid(m); i.setName(m); i.setNode(m); l << i; } o.setItems(l)),
+                     GETL(QStringList l; for (const auto &i : o.items()) l << i.jid() + '|' + i.name() + '|' + i.node(); return qxvfields::list2s(l))),
         }, [](T &o) { o.setQueryType(QXmppDiscoveryIq::ItemsQuery); });
         // a default-constructed IQ (no setQueryType()) must serialize to something it parses back
         r << makeType<T>("QXmppDiscoveryIq[default-constructed]", { F_STR(T, "id", setId, id), F_STR(T, "queryNode", setQueryNode, queryNode) });
@@ -231,8 +235,10 @@ QVector<ObjectType> buildTypes()
             F_CUSTOM(T, "photo", "bytes", SETL({ o.setPhoto(v.str.toUtf8() + QByteArray(1, char(v.idx)) + QByteArray(2, '\0')); o.setPhotoType("image/png"); }), GETL(return qxvfields::bytes2s(o.photo()) + '|' + o.photoType())),
             F_CUSTOM(T, "addresses", "str", SETL({ QXmppVCardAddress a; a.setCountry(plain ? v.plain : v.str); a.setLocality(plain ? v.plain : v.str); a.setPostcode(plain ? v.plain : v.str); a.setRegion(plain ? v.plain : v.str); a.setStreet(plain ? v.plain : v.str);
                                               a.setType(QXmppVCardAddress::Type(1 << (v.idx % 4))); o.setAddresses({ a }); }), GETL({ QStringList l; for (const auto &a : o.addresses()) l << a.country() + '|' + a.locality() + '|' + a.postcode() + '|' + a.region() + '|' + a.street() + '|' + QString::number(int(a.type())); return l.join(QChar(0x1f)); })),
-            F_CUSTOM(T, "emails", "str", SETL({ QXmppVCardEmail e; e.setAddress(plain ? v.plain : v.str); e.setType(QXmppVCardEmail::Type(1 << (v.idx % 5))); o.setEmails({ e }); }), GETL({ QStringList l; for (const auto &e : o.emails()) l << e.address() + '|' + QString::number(int(e.type())); return l.join(QChar(0x1f)); })),
-            F_CUSTOM(T, "phones", "str", SETL({ QXmppVCardPhone p; p.setNumber(plain ? v.plain : v.str); p.setType(QXmppVCardPhone::Type(1 << (v.idx % 13))); o.setPhones({ p }); }), GETL({ QStringList l; for (const auto &p : o.phones()) l << p.number() + '|' + QString::number(int(p.type())); return l.join(QChar(0x1f)); })),
+            F_CUSTOM(T, "emails", "list:struct", SETL(QList<QXmppVCardEmail> l; for (const auto &m : qxvfields::members(v, plain)) { QXmppVCardEmail e; e.setAddress(m); e.setType(QXmppVCardEmail::Type(1 << (v.idx % 5))); l << e; } o.setEmails(l)),
+                     GETL(QStringList l; for (const auto &e : o.emails()) l << e.address() + '|' + QString::number(int(e.type())); return qxvfields::list2s(l))),
+            F_CUSTOM(T, "phones", "list:struct", SETL(QList<QXmppVCardPhone> l; for (const auto &m : qxvfields::members(v, plain)) { QXmppVCardPhone p; p.setNumber(m); p.setType(QXmppVCardPhone::Type(1 << (v.idx % 13))); l << p; } o.setPhones(l)),
+                     GETL(QStringList l; for (const auto &p : o.phones()) l << p.number() + '|' + QString::number(int(p.type())); return qxvfields::list2s(l))),
             F_CUSTOM(T, "organization", "str", SETL({ QXmppVCardOrganization g; g.setOrganization(plain ? v.plain : v.str); g.setUnit(plain ? v.plain : v.str); g.setTitle(plain ? v.plain : v.str); g.setRole(plain ? v.plain : v.str); o.setOrganization(g); }), GETL({ auto g = o.organization(); return g.organization() + '|' + g.unit() + '|' + g.title() + '|' + g.role(); })),
         });
     }
@@ -243,10 +249,15 @@ QVector<ObjectType> buildTypes()
             F_STR(T, "title", setTitle, title), F_STR(T, "instructions", setInstructions, instructions),
             F_CUSTOM(T, "textField", "str", SETL({ QXmppDataForm::Field f(QXmppDataForm::Field::TextSingleField); f.setKey(plain ? v.plain : v.str); f.setLabel(plain ? v.plain : v.str); f.setDescription(plain ? v.plain : v.str); f.setValue(plain ? v.plain : v.str); f.setRequired(v.idx % 2);
                                               auto fs = o.fields(); fs << f; o.setFields(fs); }), GETL({ QStringList l; for (const auto &f : o.fields()) if (f.type() == QXmppDataForm::Field::TextSingleField) l << f.key() + '|' + f.label() + '|' + f.description() + '|' + f.value().toString() + '|' + qxvfields::b2s(f.isRequired()); return l.join(QChar(0x1f)); })),
-            F_CUSTOM(T, "listField", "str", SETL({ QXmppDataForm::Field f(QXmppDataForm::Field::ListMultiField); f.setKey("list"); f.setOptions({ { plain ? v.plain : v.str, plain ? v.plain : v.str }, { "l2", "v2" } }); f.setValue(QStringList { plain ? v.plain : v.str, "v2" });
-                                              auto fs = o.fields(); fs << f; o.setFields(fs); }), GETL({ QStringList l; for (const auto &f : o.fields()) if (f.type() == QXmppDataForm::Field::ListMultiField) { for (const auto &op : f.options()) l << op.first + '=' + op.second; l << f.value().toStringList().join(','); } return l.join(QChar(0x1f)); })),
+            F_CUSTOM(T, "listMultiValues", "list:str", SETL(QXmppDataForm::Field f(QXmppDataForm::Field::ListMultiField); f.setKey("lm"); f.setValue(qxvfields::members(v, plain)); auto fs = o.fields(); fs << f; o.setFields(fs)),
+                     GETL(QStringList l; for (const auto &f : o.fields()) if (f.type() == QXmppDataForm::Field::ListMultiField) l << qxvfields::list2s(f.value().toStringList()); return l.join(QChar(0x1e)))),
+            F_CUSTOM(T, "jidMultiValues", "list:str", SETL(QXmppDataForm::Field f(QXmppDataForm::Field::JidMultiField); f.setKey("jm"); f.setValue(qxvfields::members(v, plain)); auto fs = o.fields(); fs << f; o.setFields(fs)),
+                     GETL(QStringList l; for (const auto &f : o.fields()) if (f.type() == QXmppDataForm::Field::JidMultiField) l << qxvfields::list2s(f.value().toStringList()); return l.join(QChar(0x1e)))),
+            F_CUSTOM(T, "listOptions", "list:struct", SETL(QXmppDataForm::Field f(QXmppDataForm::Field::ListSingleField); f.setKey("ls"); QList<QPair<QString, QString>> ops; for (const auto &m : qxvfields::members(v, plain)) { ops << qMakePair(m, m); } f.setOptions(ops); auto fs = o.fields(); fs << f; o.setFields(fs)),
+                     GETL(QStringList l; for (const auto &f : o.fields()) if (f.type() == QXmppDataForm::Field::ListSingleField) { QStringList ol; for (const auto &op : f.options()) ol << op.first + '=' + op.second; l << qxvfields::list2s(ol); } return l.join(QChar(0x1e)))),
             F_CUSTOM(T, "boolField", "bool", SETL({ QXmppDataForm::Field f(QXmppDataForm::Field::BooleanField); f.setKey("flag"); f.setValue(v.idx % 2 == 0); auto fs = o.fields(); fs << f; o.setFields(fs); }), GETL({ QStringList l; for (const auto &f : o.fields()) if (f.type() == QXmppDataForm::Field::BooleanField) l << qxvfields::b2s(f.value().toBool()); return l.join(QChar(0x1f)); })),
-            F_CUSTOM(T, "multiTextField", "str", SETL({ QXmppDataForm::Field f(QXmppDataForm::Field::TextMultiField); f.setKey("multi"); f.setValue((plain ? v.plain : v.str) + QStringLiteral("\nline2")); auto fs = o.fields(); fs << f; o.setFields(fs); }), GETL({ QStringList l; for (const auto &f : o.fields()) if (f.type() == QXmppDataForm::Field::TextMultiField) l << f.value().toString(); return l.join(QChar(0x1f)); })),
+            F_CUSTOM(T, "textMultiValues", "list:str", SETL(QXmppDataForm::Field f(QXmppDataForm::Field::TextMultiField); f.setKey("tm"); f.setValue(qxvfields::members(v, plain)); auto fs = o.fields(); fs << f; o.setFields(fs)),
+                     GETL(QStringList l; for (const auto &f : o.fields()) if (f.type() == QXmppDataForm::Field::TextMultiField) l << qxvfields::list2s(f.value().toStringList()); return l.join(QChar(0x1e)))),
         }, [](T &o) { o.setType(QXmppDataForm::Form); });
     }
     {
@@ -306,7 +317,8 @@ QVector<ObjectType> buildTypes()
         using T = QXmppByteStreamIq;
         r << makeType<T>("QXmppByteStreamIq", {
             F_STR(T, "sid", setSid, sid), F_ENUM(T, "mode", QXmppByteStreamIq::Mode, 0, 3, setMode, mode), F_STR(T, "activate", setActivate, activate), F_STR(T, "streamHostUsed", setStreamHostUsed, streamHostUsed),
-            F_CUSTOM(T, "streamHosts", "str+int:quint16", SETL({ QXmppByteStreamIq::StreamHost h; h.setJid(plain ? v.plain : v.str); h.setHost(plain ? v.plain : v.str); auto b = qxvfields::intBounds<quint16>(); h.setPort(b[v.idx % b.size()]); h.setZeroconf(plain ? v.plain : v.str); o.setStreamHosts({ h }); }), GETL({ QStringList l; for (const auto &h : o.streamHosts()) l << h.jid() + '|' + h.host() + '|' + QString::number(h.port()) + '|' + h.zeroconf(); return l.join(QChar(0x1f)); })),
+            F_CUSTOM(T, "streamHosts", "list:struct", SETL(QList<QXmppByteStreamIq::StreamHost> l; auto b = qxvfields::intBounds<quint16>(); for (const auto &m : qxvfields::members(v, plain)) { QXmppByteStreamIq::StreamHost h; h.setJid(m); h.setHost(m); h.setPort(b[v.idx % b.size()]); h.setZeroconf(m); l << h; } o.setStreamHosts(l)),
+                     GETL(QStringList l; for (const auto &h : o.streamHosts()) l << h.jid() + '|' + h.host() + '|' + QString::number(h.port()) + '|' + h.zeroconf(); return qxvfields::list2s(l))),
         }, [](T &o) { o.setType(QXmppIq::Set); });
     }
     {
@@ -396,22 +408,23 @@ QVector<ObjectType> buildTypes()
         using T = QXmppMessageReaction;
         r << makeType<T>("QXmppMessageReaction", {
             F_STR(T, "messageId", setMessageId, messageId),
-            F_CUSTOM(T, "emojis", "strlist", SETL({ o.setEmojis({ plain ? v.plain : v.str, QStringLiteral("x") }); }), GETL(auto em = QStringList(o.emojis().toList()); em.sort(); return em.join(QChar(0x1f)))),
+            F_CUSTOM(T, "emojis", "set:str", SETL(auto em = qxvfields::members(v, plain); em.removeDuplicates(); /* setEmojis(): "Duplicates are not allowed" */ o.setEmojis(qxvfields::fromStrings<QVector<QString>>(em))), GETL(return qxvfields::set2s(qxvfields::toStrings(o.emojis())))),
         });
     }
     {
         using T = QXmppTrustMessageKeyOwner;
         r << makeType<T>("QXmppTrustMessageKeyOwner", {
             F_STR(T, "jid", setJid, jid),
-            F_CUSTOM(T, "trustedKeys", "byteslist", SETL({ o.setTrustedKeys({ v.str.toUtf8() + QByteArray(1, char(v.idx)), QByteArray("k2") }); }), GETL({ QStringList l; for (const auto &k : o.trustedKeys()) l << qxvfields::bytes2s(k); return l.join(','); })),
-            F_CUSTOM(T, "distrustedKeys", "byteslist", SETL({ o.setDistrustedKeys({ v.str.toUtf8() + QByteArray(2, '\0'), QByteArray("k3") }); }), GETL({ QStringList l; for (const auto &k : o.distrustedKeys()) l << qxvfields::bytes2s(k); return l.join(','); })),
+            F_CUSTOM(T, "trustedKeys", "list:bytes", SETL(QList<QByteArray> l; for (const auto &m : qxvfields::members(v, plain)) { l << m.toUtf8(); } o.setTrustedKeys(l)), GETL(QStringList l; for (const auto &k : o.trustedKeys()) l << qxvfields::bytes2s(k); return qxvfields::list2s(l))),
+            F_CUSTOM(T, "distrustedKeys", "list:bytes", SETL(QList<QByteArray> l; for (const auto &m : qxvfields::members(v, plain)) { l << m.toUtf8(); } o.setDistrustedKeys(l)), GETL(QStringList l; for (const auto &k : o.distrustedKeys()) l << qxvfields::bytes2s(k); return qxvfields::list2s(l))),
         });
     }
     {
         using T = QXmppTrustMessageElement;
         r << makeType<T>("QXmppTrustMessageElement", {
             F_STR(T, "usage", setUsage, usage), F_STR(T, "encryption", setEncryption, encryption),
-            F_CUSTOM(T, "keyOwners", "str", SETL({ QXmppTrustMessageKeyOwner k; k.setJid(plain ? v.plain : v.str); k.setTrustedKeys({ QByteArray("a") }); o.setKeyOwners({ k }); }), GETL({ QStringList l; for (const auto &k : o.keyOwners()) l << k.jid(); return l.join(QChar(0x1f)); })),
+            F_CUSTOM(T, "keyOwners", "list:struct", SETL(QList<QXmppTrustMessageKeyOwner> l; for (const auto &m : qxvfields::members(v, plain)) { QXmppTrustMessageKeyOwner k; k.setJid(m); k.setTrustedKeys({ QByteArray("a") }); l << k; } o.setKeyOwners(l)),
+                     GETL(QStringList l; for (const auto &k : o.keyOwners()) l << k.jid(); return qxvfields::list2s(l))),
         });
     }
     {
@@ -437,8 +450,8 @@ QVector<ObjectType> buildTypes()
             F_ENUM(T, "clientStateIndicationMode", QXmppStreamFeatures::Mode, 0, 3, setClientStateIndicationMode, clientStateIndicationMode),
             F_ENUM(T, "registerMode", QXmppStreamFeatures::Mode, 0, 3, setRegisterMode, registerMode),
             F_BOOL(T, "preApprovedSubscriptions", setPreApprovedSubscriptionsSupported, preApprovedSubscriptionsSupported), F_BOOL(T, "rosterVersioning", setRosterVersioningSupported, rosterVersioningSupported),
-            F_CUSTOM(T, "authMechanisms", "strlist", SETL({ o.setAuthMechanisms({ plain ? v.plain : v.str, QStringLiteral("PLAIN") }); }), GETL(return qxvfields::sl2s(o.authMechanisms()))),
-            F_CUSTOM(T, "compressionMethods", "strlist", SETL({ o.setCompressionMethods({ plain ? v.plain : v.str, QStringLiteral("zlib") }); }), GETL(return qxvfields::sl2s(o.compressionMethods()))),
+            F_LIST(T, "authMechanisms", setAuthMechanisms, authMechanisms),
+            F_LIST(T, "compressionMethods", setCompressionMethods, compressionMethods),
             F_CUSTOM(T, "sasl2Feature", "str", SETL({ Sasl2::StreamFeature f; f.mechanisms = { plain ? v.plain : v.str, QStringLiteral("SCRAM-SHA-1") }; f.streamResumptionAvailable = v.idx % 2; if (v.idx % 3) f.bind2Feature = Bind2Feature { { plain ? v.plain : v.str } };
                                                  if (v.idx % 4) f.fast = FastFeature { { plain ? v.plain : v.str }, bool(v.idx % 2) }; o.setSasl2Feature(f); }), GETL({ auto f = o.sasl2Feature(); if (!f) return QStringLiteral("(none)"); QStringList l = f->mechanisms; l << qxvfields::b2s(f->streamResumptionAvailable); if (f->bind2Feature) for (const auto &x : f->bind2Feature->features) l << "b:" + x;
                        if (f->fast) { for (const auto &x : f->fast->mechanisms) l << "f:" + x; l << qxvfields::b2s(f->fast->tls0rtt); } return l.join(QChar(0x1f)); })),
@@ -471,7 +484,7 @@ QVector<ObjectType> buildTypes()
         using T = QXmppMixInfoItem;
         r << makeType<T>("QXmppMixInfoItem", {
             F_STR(T, "id", setId, id), F_STR(T, "name", setName, name), F_STR(T, "description", setDescription, description),
-            F_CUSTOM(T, "contactJids", "strlist", SETL(o.setContactJids({ plain ? v.plain : v.str, QStringLiteral("b@example.org") })), GETL(return qxvfields::sl2s(o.contactJids()))),
+            F_LIST(T, "contactJids", setContactJids, contactJids),
         }, [](T &o) { o.setFormType(QXmppDataForm::Result); });
     }
     {
@@ -510,10 +523,10 @@ QVector<ObjectType> buildTypes()
     {
         using T = QXmppBookmarkSet;
         r << makeType<T>("QXmppBookmarkSet", {
-            F_CUSTOM(T, "conference", "str+bool", SETL(QXmppBookmarkConference c; c.setJid(plain ? v.plain : v.str); c.setName(plain ? v.plain : v.str); c.setNickName(plain ? v.plain : v.str); c.setAutoJoin(v.idx % 2); o.setConferences({ c })),
-                     GETL(QStringList l; for (const auto &c : o.conferences()) l << c.jid() + '|' + c.name() + '|' + c.nickName() + '|' + qxvfields::b2s(c.autoJoin()); return l.join(QChar(0x1f)))),
-            F_CUSTOM(T, "url", "str", SETL(QXmppBookmarkUrl u; u.setName(plain ? v.plain : v.str); u.setUrl(QUrl(QStringLiteral("https://example.org/%1").arg(v.idx))); o.setUrls({ u })),
-                     GETL(QStringList l; for (const auto &u : o.urls()) l << u.name() + '|' + u.url().toString(); return l.join(QChar(0x1f)))),
+            F_CUSTOM(T, "conferences", "list:struct", SETL(QList<QXmppBookmarkConference> l; for (const auto &m : qxvfields::members(v, plain)) { QXmppBookmarkConference c; c.setJid(m); c.setName(m); c.setNickName(m); c.setAutoJoin(v.idx % 2); l << c; } o.setConferences(l)),
+                     GETL(QStringList l; for (const auto &c : o.conferences()) l << c.jid() + '|' + c.name() + '|' + c.nickName() + '|' + qxvfields::b2s(c.autoJoin()); return qxvfields::list2s(l))),
+            F_CUSTOM(T, "urls", "list:struct", SETL(QList<QXmppBookmarkUrl> l; for (const auto &m : qxvfields::members(v, plain)) { QXmppBookmarkUrl u; u.setName(m); u.setUrl(QUrl(QStringLiteral("https://example.org/%1").arg(v.idx))); l << u; } o.setUrls(l)),
+                     GETL(QStringList l; for (const auto &u : o.urls()) l << u.name() + '|' + u.url().toString(); return qxvfields::list2s(l))),
         });
     }
     {
@@ -543,8 +556,8 @@ QVector<ObjectType> buildTypes()
         using T = QXmppJingleRtpHeaderExtensionProperty;
         r << makeType<T>("QXmppJingleRtpHeaderExtensionProperty", {
             F_INT(T, "id", quint32, setId, id), F_STR(T, "uri", setUri, uri), F_ENUM(T, "senders", QXmppJingleRtpHeaderExtensionProperty::Senders, 0, 3, setSenders, senders),
-            F_CUSTOM(T, "parameters", "str", SETL(QXmppSdpParameter p; p.setName(plain ? v.plain : v.str); p.setValue(plain ? v.plain : v.str); o.setParameters({ p })),
-                     GETL(QStringList l; for (const auto &p : o.parameters()) l << p.name() + '=' + p.value(); return l.join(QChar(0x1f)))),
+            F_CUSTOM(T, "parameters", "list:struct", SETL(QVector<QXmppSdpParameter> l; for (const auto &m : qxvfields::members(v, plain)) { QXmppSdpParameter p; p.setName(m.isEmpty() ? QStringLiteral("n") : m); p.setValue(m); l << p; } o.setParameters(l)),
+                     GETL(QStringList l; for (const auto &p : o.parameters()) l << p.name() + '=' + p.value(); return qxvfields::list2s(l))),
         }, [](T &o) { o.setUri("urn:ietf:params:rtp-hdrext:toffset"); });
     }
     {
@@ -562,8 +575,8 @@ QVector<ObjectType> buildTypes()
             F_BOOL(T, "audio", setAudio, audio), F_BOOL(T, "video", setVideo, video),
             F_CUSTOM(T, "jingle", "str", SETL(QXmppCallInviteElement::Jingle j; j.sid = plain ? v.plain : v.str; if (v.idx % 2) { j.jid = plain ? v.plain : v.str; } o.setJingle(j)),
                      GETL(auto j = o.jingle(); return j ? j->sid + '|' + j->jid.value_or(QStringLiteral("(none)")) : QStringLiteral("(none)"))),
-            F_CUSTOM(T, "external", "str", SETL(QXmppCallInviteElement::External e; e.uri = plain ? v.plain : v.str; o.setExternal(QVector<QXmppCallInviteElement::External> { e })),
-                     GETL(auto e = o.external(); if (!e) return QStringLiteral("(none)"); QStringList l; for (const auto &x : *e) l << x.uri; return l.join(QChar(0x1f)))),
+            F_CUSTOM(T, "external", "list:struct", SETL(QVector<QXmppCallInviteElement::External> l; for (const auto &m : qxvfields::members(v, plain, 1)) { QXmppCallInviteElement::External e; e.uri = m; l << e; } o.setExternal(l)),
+                     GETL(auto e = o.external(); if (!e) return QStringLiteral("(none)"); QStringList l; for (const auto &x : *e) l << x.uri; return qxvfields::list2s(l))),
         }, [](T &o) { o.setType(QXmppCallInviteElement::Type::Invite); });
     }
     {
@@ -630,7 +643,7 @@ QVector<ObjectType> buildTypes()
     {
         using T = Bind2Feature;
         r << makeType<T>("Bind2Feature", {
-            F_CUSTOM(T, "features", "strlist", SETL({ o.features = { plain ? v.plain : v.str, QStringLiteral("urn:xmpp:carbons:2") }; }), GETL({ QStringList l; for (const auto &f : o.features) l << f; return l.join(QChar(0x1f)); })) });
+            F_CUSTOM(T, "features", "list:str", SETL(o.features = qxvfields::fromStrings<decltype(o.features)>(qxvfields::members(v, plain))), GETL(return qxvfields::list2s(qxvfields::toStrings(o.features)))) });
     }
     {
         using T = Bind2Request;
@@ -647,7 +660,7 @@ QVector<ObjectType> buildTypes()
     {
         using T = FastFeature;
         r << makeType<T>("FastFeature", {
-            F_CUSTOM(T, "mechanisms", "strlist", SETL({ o.mechanisms = { plain ? v.plain : v.str, QStringLiteral("HT-SHA-256-NONE") }; }), GETL({ QStringList l; for (const auto &f : o.mechanisms) l << f; return l.join(QChar(0x1f)); })),
+            F_CUSTOM(T, "mechanisms", "list:str", SETL(o.mechanisms = qxvfields::fromStrings<decltype(o.mechanisms)>(qxvfields::members(v, plain))), GETL(return qxvfields::list2s(qxvfields::toStrings(o.mechanisms)))),
             M_BOOL(T, tls0rtt) });
     }
     {
@@ -710,7 +723,7 @@ QVector<ObjectType> buildTypes()
         using T = Sasl2::Continue;
         r << makeType<T>("Sasl2::Continue", {
             M_BYTES(T, additionalData),
-            F_CUSTOM(T, "tasks", "strlist", SETL({ o.tasks = { plain ? v.plain : v.str, QStringLiteral("TOTP-EXAMPLE") }; }), GETL({ QStringList l; for (const auto &f : o.tasks) l << f; return l.join(QChar(0x1f)); })),
+            F_CUSTOM(T, "tasks", "list:str", SETL(o.tasks = qxvfields::fromStrings<decltype(o.tasks)>(qxvfields::members(v, plain, 1))), GETL(return qxvfields::list2s(qxvfields::toStrings(o.tasks)))),
             M_STR(T, text) }, [](T &o) { o.tasks = { QStringLiteral("HOTP-EXAMPLE") }; });
     }
     {
@@ -732,7 +745,7 @@ const QVector<ObjectType> &objectTypes()
 // A plan of Codec.tla has K slots; field j of a type with more fields takes the value of slot
 // digit_map(j) (the map-th base-K digit of j), so that over the maps 0..ceil(log_K n)-1 every pair
 // of fields receives every pair of slot values.
-QJsonObject objectCase(Ctx &ctx, const QString &cls, int map, const QJsonArray &vals, int variant, bool logGetters)
+QJsonObject objectCase(Ctx &ctx, const QString &cls, int map, const QJsonArray &vals, int variant, bool logGetters, int shape)
 {
     const ObjectType *t = nullptr;
     for (const auto &x : objectTypes()) {
@@ -759,6 +772,7 @@ QJsonObject objectCase(Ctx &ctx, const QString &cls, int map, const QJsonArray &
             pv[j].str = classString(ctx, c, variant);
             pv[j].plain = QStringLiteral("qxvp%1").arg(j);
             pv[j].idx = c + 10 * variant + j;
+            pv[j].shape = shape;
         }
         assigned.append(c >= 0 ? QJsonValue(classNames()[c]) : QJsonValue());
     }
@@ -766,6 +780,9 @@ QJsonObject objectCase(Ctx &ctx, const QString &cls, int map, const QJsonArray &
     res["cls"] = cls;
     res["map"] = map;
     res["variant"] = variant;
+    if (shape >= 0) {
+        res["shape"] = QString::fromLatin1(qxvfields::listShapeName(shape));
+    }
     res["vals"] = vals;
     res["skipped"] = false;
     return res;
